@@ -8,6 +8,7 @@
 import MosVerif.Props.C03Pins
 import MosVerif.Lemmas.RouterBasic
 import MosVerif.Lemmas.RouterSpecMain
+import MosVerif.Lemmas.TranslatedC03
 import MosVerif.Model.RouterIO
 namespace MosVerif.C03
 open MosVerif.Wire MosVerif.Router
@@ -293,10 +294,20 @@ example : judged { exEnv 3 [] with rules := [⟨none, false, 0, some 0⟩] } (ex
 /-- necessity 2 — a reject code ≥ 16 (`test.de` hits the second rule): the model answers 19, the wire can only carry 3 -/
 example : judged (exEnv 19 []) (exQuery [4, 116, 101, 115, 116, 2, 100, 101]) = "viol:C10:reject-rcode" := by decide
 
-/-- tie: the NOTIMP predicate, the five header assignments, the request deadline (6 s), the deferred
-    "always a response" fallback, the single-question copy and the upstream question check. -/
+/-- tie by translation (Lemmas/TranslatedC03.lean): `handle` branches on the mechanical translation of the current
+    `notImpl := …` statement of `handleReqMsg`; the OPT class floor of `newEDNS0` and the UDP listener's client-size
+    computation (OPT class, floor 512, cap `maxUdpPayloadSize`) are the translated statements, for all arguments. -/
+theorem int_logic_is_the_translated_source (m : Msg) (size optHdr : Nat) (data : Bytes) (opt : Bool) :
+    (m.hdr.response || !m.hdr.rd || m.hdr.opcode != 0 || m.questions.length != 1) =
+      Translated.c03_notImpl m.hdr.response m.hdr.rd m.hdr.opcode m.questions.length ∧
+    newEDNS0 size data = ⟨[], typeOPT, Translated.c03_edns0Size size, 0, .raw data⟩ ∧
+    Listeners.udpClientSize opt size = Translated.c03_udpClientSize optHdr opt size :=
+  ⟨notImpl_translated m, newEDNS0_translated size data, udpClientSize_translated optHdr opt size⟩
+
+/-- tie (pins; the NOTIMP predicate is tied by translation, `handle_translated`): the five header assignments, the
+    request deadline (6 s), the deferred "always a response" fallback, the single-question copy and the upstream
+    question check. -/
 theorem pins :
-    Facts.notimp_pred = "notImpl := hdr.Response || !hdr.RecursionDesired || hdr.OpCode != dnsmsg.OpCode(0) || len(m.Questions) != 1" ∧
     Facts.hdrfix_id = "rc.Response.Msg.Header.ID = m.Header.ID" ∧
     Facts.hdrfix_qr = "rc.Response.Msg.Header.Response = true" ∧
     Facts.hdrfix_opcode = "rc.Response.Msg.Header.OpCode = m.Header.OpCode" ∧
